@@ -85,30 +85,37 @@ Proof.
   intro r. constructor; simpl; try rewrite repeat_length; auto; unfold MAXNVELT; lia.
 Qed.
 
-(** vinsertpair appends *)
+(** vinsertpair appends, or refuses the 65536th member *)
 Lemma vinsertpair_spec : forall g t r, WF g -> nvelt g < 65535 ->
-  let '(g', n) := vinsertpair g t r in
-  WF g' /\ members g' = members g ++ [(t, r)] /\ n = nvelt g + 1 /\ nvelt g' = n.
+  exists g' n, vinsertpair g t r = Some (g', n) /\
+  WF g' /\ members g' = members g ++ [(t, r)] /\ n = nvelt g + 1 /\ nvelt g' = n /\
+  g' = set_arrays g n (msize g') (tag g') (ref g').
 Proof.
   intros g t r [Ht Hr Hn Hm Hu] Hlt. unfold vinsertpair.
+  replace (65535 <=? nvelt g) with false by (symmetry; apply Z.leb_gt; lia).
   assert (Hw : w16 (nvelt g + 1) = nvelt g + 1) by (unfold w16; apply Z.mod_small; lia).
   rewrite Hw.
   destruct (msize g <=? nvelt g) eqn:E.
   - apply Z.leb_le in E. assert (nvelt g = msize g) by lia.
     assert (L1 : length (agrow (tag g) (msize g * 2)) = Z.to_nat (msize g * 2)) by (apply agrow_length; lia).
     assert (L2 : length (agrow (ref g) (msize g * 2)) = Z.to_nat (msize g * 2)) by (apply agrow_length; lia).
+    eexists; eexists. split; [reflexivity|].
     split; [constructor; simpl; rewrite ?aset_length; auto; lia|].
-    split; [|split; reflexivity].
+    split; [|split; [reflexivity|split; reflexivity]].
     unfold members; simpl. rewrite Z2Nat.inj_add, Nat.add_1_r by lia.
     rewrite !firstn_S_aset by lia. rewrite !firstn_agrow by lia.
     apply combine_app_eq. rewrite !firstn_length. lia.
   - apply Z.leb_gt in E.
+    eexists; eexists. split; [reflexivity|].
     split; [constructor; simpl; rewrite ?aset_length; auto; lia|].
-    split; [|split; reflexivity].
+    split; [|split; [reflexivity|split; reflexivity]].
     unfold members; simpl. rewrite Z2Nat.inj_add, Nat.add_1_r by lia.
     rewrite !firstn_S_aset by lia.
     apply combine_app_eq. rewrite !firstn_length. lia.
 Qed.
+
+Lemma vinsertpair_full : forall g t r, 65535 <= nvelt g -> vinsertpair g t r = None.
+Proof. intros. unfold vinsertpair. replace (65535 <=? nvelt g) with true by (symmetry; apply Z.leb_le; lia). reflexivity. Qed.
 
 (* ---- scanning ------------------------------------------------------------------------------------- *)
 Fixpoint lfind (p : pair) (l : list pair) : option nat :=
@@ -264,20 +271,21 @@ Proof.
   intros g o l' x W H. pose proof (members_length g W) as ML.
   destruct o; cbn [l_apply m_apply] in *.
   - (* MAdd *)
-    destruct (u16 t && u16 r && (zlen (members g) <? 65535)) eqn:C; [|discriminate].
-    apply andb_true_iff in C as [C C3]. apply andb_true_iff in C as [C1 C2]. apply Z.ltb_lt in C3.
-    inversion H; subst; clear H. unfold Vaddtagref. rewrite (w16_id t C1), (w16_id r C2).
-    pose proof (vinsertpair_spec g t r W ltac:(lia)) as S. destruct (vinsertpair g t r) as [g' n].
-    destruct S as (S1 & S2 & S3 & S4). cbn [fst snd]. refine (conj _ (conj _ _)); auto. rewrite S3, ML. reflexivity.
+    destruct (u16 t && u16 r) eqn:C; [|discriminate]. apply andb_true_iff in C as [C1 C2].
+    unfold Vaddtagref. rewrite (w16_id t C1), (w16_id r C2).
+    destruct (Z.ltb_spec (zlen (members g)) 65535) as [C3|C3].
+    + destruct (vinsertpair_spec g t r W ltac:(lia)) as (g' & n & E & S1 & S2 & S3 & S4 & _).
+      rewrite E. inversion H; subst. cbn [fst snd]. refine (conj _ (conj _ _)); auto. rewrite ML. reflexivity.
+    + rewrite vinsertpair_full by lia. inversion H; subst. cbn [fst snd]. auto.
   - (* MInsert *)
-    destruct (u16 t && u16 r && (zlen (members g) <? 65535)) eqn:C; [|discriminate].
-    apply andb_true_iff in C as [C C3]. apply andb_true_iff in C as [C1 C2]. apply Z.ltb_lt in C3.
+    destruct (u16 t && u16 r) eqn:C; [|discriminate]. apply andb_true_iff in C as [C1 C2].
     unfold Vinsert. rewrite (w16_id t C1), (w16_id r C2), scan_members by auto.
     rewrite has_member_lfind in H. destruct (lfind (t, r) (members g)).
     + inversion H; subst. cbn [fst snd]. auto.
-    + pose proof (vinsertpair_spec g t r W ltac:(lia)) as S. destruct (vinsertpair g t r) as [g' n].
-      destruct S as (S1 & S2 & S3 & S4). inversion H; subst. cbn [fst snd]. refine (conj _ (conj _ _)); auto.
-      f_equal. lia.
+    + destruct (Z.ltb_spec (zlen (members g)) 65535) as [C3|C3].
+      * destruct (vinsertpair_spec g t r W ltac:(lia)) as (g' & n & E & S1 & S2 & S3 & S4 & _).
+        rewrite E. inversion H; subst. cbn [fst snd]. refine (conj _ (conj _ _)); auto. f_equal. lia.
+      * rewrite vinsertpair_full by lia. inversion H; subst. cbn [fst snd]. auto.
   - (* MDel *)
     destruct (u16 t && u16 r) eqn:C; [|discriminate]. apply andb_true_iff in C as [C1 C2].
     pose proof (Vdeletetagref_spec g t r W C1 C2) as S. destruct (Vdeletetagref g t r) as [g'|].
@@ -458,10 +466,18 @@ Proof.
     + subst nm. unfold zlen in E. simpl in E. lia.
 Qed.
 
+Definition pair_u16 (p : Z * Z) : Prop := is_u16 (fst p) /\ is_u16 (snd p).
+
+Lemma Forall_combine_split : forall (a b : list Z), length a = length b ->
+  Forall pair_u16 (combine a b) -> Forall is_u16 a /\ Forall is_u16 b.
+Proof.
+  induction a; destruct b; simpl; intros L F; try discriminate; auto.
+  inversion F as [|? ? [A B] F']; subst. destruct (IHa b ltac:(lia) F'). split; constructor; auto.
+Qed.
+
 Record WFpack (g : VGROUP) : Prop := mkWFpack {
   wp_wf    : WF g;
-  wp_tag   : Forall is_u16 (firstn (Z.to_nat (nvelt g)) (tag g));
-  wp_ref   : Forall is_u16 (firstn (Z.to_nat (nvelt g)) (ref g));
+  wp_mem   : Forall pair_u16 (members g);
   wp_name  : name_wf (vgname g);
   wp_class : name_wf (vgclass g);
   wp_ex    : is_u16 (extag g) /\ is_u16 (exref g) /\ 0 <= more g <= 32767;
@@ -477,12 +493,15 @@ Definition reloaded (g : VGROUP) : VGROUP :=
   let m := if MAXNVELT <? nvelt g then nvelt g else MAXNVELT in
   mkVG (oref g) (nvelt g) m (agrow (firstn n (tag g)) m) (agrow (firstn n (ref g)) m)
        (norm (vgname g)) (norm (vgclass g)) (extag g) (exref g) (flags g) (nattrs g) (alist g)
-       (fst (vpackvg g)) (more g) false false.
+       (fst (vpackvg g)) (more g) false false false.
 
 Lemma pack_roundtrip_lemma : forall g, WFpack g -> vunpackvg (oref g) (snd (vpackvg g)) = Some (reloaded g).
 Proof.
-  intros g [W Ft Fr Wn Wc (Xt & Xr & Xm) Hf (Na & Nl & Fa) Hno (Hv & Hv4)].
+  intros g [W Fm Wn Wc (Xt & Xr & Xm) Hf (Na & Nl & Fa) Hno (Hv & Hv4)].
   pose proof W as [Lt Lr Hn Hm Hu].
+  assert (Lc : length (firstn (Z.to_nat (nvelt g)) (tag g)) = length (firstn (Z.to_nat (nvelt g)) (ref g)))
+    by (rewrite !firstn_length; lia).
+  destruct (Forall_combine_split _ _ Lc Fm) as [Ft Fr]. clear Lc.
   unfold vpackvg. cbn [snd].
   set (n := Z.to_nat (nvelt g)).
   set (ver := if negb (flags g =? 0) && (version g <? VSET_NEW_VERSION) then VSET_NEW_VERSION else version g).
@@ -563,21 +582,46 @@ Proof.
   - apply agrow_length. rewrite firstn_length. lia.
 Qed.
 
-(** the specification's view of one vgroup record *)
-Definition abs_vg (g : VGROUP) : vg :=
-  mkvg (cstr (opt_bytes (vgname g))) (cstr (opt_bytes (vgclass g))) (members g).
+(** the specification's view of one vgroup record: name, class, member list ... *)
+Definition core (g : VGROUP) : bytes * bytes * list (Z * Z) :=
+  (cstr (opt_bytes (vgname g)), cstr (opt_bytes (vgclass g)), members g).
+(** ... and whether it is writable: the shared access field counts only while some handle is attached *)
+Definition abs_vg (hg : list (Z * Z)) (k : Z) (g : VGROUP) : vg :=
+  mkvg (cstr (opt_bytes (vgname g))) (cstr (opt_bytes (vgclass g))) (members g) (attached_in k hg && access g).
 
 Lemma norm_view : forall o, name_wf o -> cstr (opt_bytes (norm o)) = cstr (opt_bytes o).
 Proof. intros o W. destruct o as [[|x s]|]; reflexivity. Qed.
 
+Lemma pack_version : forall g, 0 <= version g <= 4 -> (flags g = 0 -> version g <> 4) ->
+  0 <= fst (vpackvg g) <= 4 /\ (flags g = 0 -> fst (vpackvg g) <> 4).
+Proof.
+  intros g Hv Hv4. unfold vpackvg. cbn [fst]. unfold VSET_NEW_VERSION.
+  destruct (Z.eqb_spec (flags g) 0) as [E|E]; cbn [negb andb].
+  - split; [lia|]. auto.
+  - destruct (Z.ltb_spec (version g) 4); split; try lia; intro; contradiction.
+Qed.
+
+Lemma reloaded_WFpack : forall g, WFpack g -> WFpack (reloaded g).
+Proof.
+  intros g P. pose proof P as [W Fm Wn Wc X Hf A Hno (Hv & Hv4)].
+  constructor; try (unfold reloaded; cbn [extag exref more flags nattrs alist]; assumption).
+  - apply reloaded_WF; auto.
+  - rewrite reloaded_members; auto.
+  - unfold reloaded; cbn [vgname]. intros s E. destruct (vgname g) as [[|x r]|]; cbn in E; try discriminate.
+    inversion E; subst. apply Wn. reflexivity.
+  - unfold reloaded; cbn [vgclass]. intros s E. destruct (vgclass g) as [[|x r]|]; cbn in E; try discriminate.
+    inversion E; subst. apply Wc. reflexivity.
+  - unfold reloaded; cbn [version flags]. apply pack_version; auto.
+Qed.
+
 (** vg_reopen_agrees: what Vdetach writes and Load_vfile reads back is the same vgroup *)
 Lemma reopen_agrees_lemma : forall g, WFpack g ->
-  exists g', vunpackvg (oref g) (snd (vpackvg g)) = Some g' /\ abs_vg g' = abs_vg g /\ WF g' /\
+  exists g', vunpackvg (oref g) (snd (vpackvg g)) = Some g' /\ core g' = core g /\ WFpack g' /\
              oref g' = oref g /\ marked g' = false.
 Proof.
   intros g P. exists (reloaded g). split; [apply pack_roundtrip_lemma; auto|].
-  destruct P. split; [|split; [apply reloaded_WF; auto | split; reflexivity]].
-  unfold abs_vg. rewrite reloaded_members by auto. unfold reloaded; cbn [vgname vgclass].
+  split; [|split; [apply reloaded_WFpack; auto | split; reflexivity]].
+  destruct P. unfold core. rewrite reloaded_members by auto. unfold reloaded; cbn [vgname vgclass].
   rewrite !norm_view by auto. reflexivity.
 Qed.
 
@@ -650,20 +694,22 @@ Proof.
   apply IHl; auto. intros x Hx. apply I. right. auto.
 Qed.
 
-Definition abs_table (t : list (Z * VGROUP)) : list (Z * vg) := map (fun e => (fst e, abs_vg (snd e))) t.
+Definition tmap {A B} (F : Z -> A -> B) (t : list (Z * A)) : list (Z * B) :=
+  map (fun e => (fst e, F (fst e) (snd e))) t.
+Definition abs_table (hg : list (Z * Z)) (t : list (Z * VGROUP)) : list (Z * vg) := tmap (abs_vg hg) t.
 
-Lemma keys_abs_table : forall t, keys (abs_table t) = keys t.
-Proof. intro. unfold keys, abs_table. rewrite map_map. reflexivity. Qed.
+Lemma keys_tmap : forall A B (F : Z -> A -> B) t, keys (tmap F t) = keys t.
+Proof. intros. unfold keys, tmap. rewrite map_map. reflexivity. Qed.
 
-Lemma clear_table_spec : forall (t : list (Z * VGROUP)) w m i, 0 <= i ->
+Lemma clear_table_spec : forall hg (t : list (Z * VGROUP)) w m i, 0 <= i ->
   (forall k g, In (k, g) t -> WF g /\ refs_ok g) ->
   flag_get i (fold_left (fun m e => clear_members w (snd e) m) t m) =
-  if referenced w i (abs_table t) then false else flag_get i m.
+  if referenced w i (abs_table hg t) then false else flag_get i m.
 Proof.
   induction t as [|[k g] t]; intros w m i Hi H; [reflexivity|]. cbn [fold_left snd].
   rewrite IHt by (auto; intros; apply (H k0); right; auto).
   destruct (H k g (or_introl eq_refl)) as [W RO].
-  rewrite clear_members_spec by auto. unfold referenced, abs_table. cbn [map existsb snd fst abs_vg g_members].
+  rewrite clear_members_spec by auto. unfold referenced, abs_table, tmap. cbn [map existsb snd fst abs_vg g_members].
   destruct (has_member (w, i) (members g)); cbn [orb]; [|reflexivity].
   destruct (existsb _ _); reflexivity.
 Qed.
@@ -719,23 +765,23 @@ Qed.
 Lemma lone_scan_spec : forall ids w (vgt : list (Z * VGROUP)),
   StronglySorted Z.lt ids -> Forall (fun k => 0 <= k <= MAX_REF) ids -> table_ok vgt ->
   (forall k g, In (k, g) vgt -> WF g /\ refs_ok g) ->
-  lone_scan ids w vgt (MAX_REF + 1) = filter (fun r => negb (referenced w r (abs_table vgt))) ids.
+  forall hg, lone_scan ids w vgt (MAX_REF + 1) = filter (fun r => negb (referenced w r (abs_table hg vgt))) ids.
 Proof.
-  intros ids w vgt S F TO HW. destruct (table_ok_facts _ vgt TO) as [ND NN].
+  intros ids w vgt S F TO HW hg. destruct (table_ok_facts _ vgt TO) as [ND NN].
   unfold lone_scan. rewrite all_ids_keys by auto.
   rewrite (fold_keys_tget VGROUP _ vgt vgt (fun g m => clear_members w g m)) by (try apply incl_refl; auto).
   unfold zrange.
   rewrite <- (filter_range_sorted (Z.to_nat (MAX_REF + 1)) 0 ids); auto.
   - apply filter_ext_in. intros i Hi. apply zrange_from_bounds in Hi.
-    rewrite clear_table_spec by (first [lia | auto]).
+    rewrite (clear_table_spec hg) by (first [lia | auto]).
     rewrite mark_ids_spec by (first [lia | eapply Forall_impl; [|exact F]; cbn; intros; lia]).
     rewrite flag_get_empty, orb_false_r.
-    destruct (referenced w i (abs_table vgt)); cbn [negb]; [rewrite andb_false_r|rewrite andb_true_r]; reflexivity.
+    destruct (referenced w i (abs_table hg vgt)); cbn [negb]; [rewrite andb_false_r|rewrite andb_true_r]; reflexivity.
   - eapply Forall_impl; [|exact F]. intros k Hk. cbv beta in Hk |- *. rewrite Z2Nat.id by (unfold MAX_REF; lia). lia.
 Qed.
 
 (** the specification state a model state stands for *)
-Definition abs_state (s : mstate) : state := mkst (abs_table (m_vg s)) (m_vs s) (m_hg s) (m_hs s).
+Definition abs_state (s : mstate) : state := mkst (abs_table (m_hg s) (m_vg s)) (m_vs s) (m_hg s) (m_hs s).
 
 Lemma lone_correct_lemma : forall s, table_ok (m_vg s) -> table_ok (m_vs s) ->
   (forall k g, In (k, g) (m_vg s) -> WF g /\ refs_ok g) ->
@@ -743,7 +789,8 @@ Lemma lone_correct_lemma : forall s, table_ok (m_vg s) -> table_ok (m_vs s) ->
 Proof.
   intros s TG TS HW. unfold Vlone, VSlone, lone_vgroups, lone_vdatas, abs_state. cbn [vgs vss].
   destruct (table_ok_facts _ _ TG) as [NDg NNg]. destruct (table_ok_facts _ _ TS) as [NDs NNs].
-  rewrite !all_ids_keys by auto. rewrite keys_abs_table.
+  rewrite !all_ids_keys by auto.
+  replace (keys (abs_table (m_hg s) (m_vg s))) with (keys (m_vg s)) by (unfold abs_table; symmetry; apply keys_tmap).
   destruct TG as [Sg Fg]. destruct TS as [Ss Fs].
   split; apply lone_scan_spec; auto; split; auto.
 Qed.
